@@ -56,6 +56,7 @@ SHAPES = {
     "rules": (["N1"], ["N1", "N2", "GR", "A", "B"], ["N2"], "rules"),
     "two": (["N1", "N2"], ["N1", "N2", "N3", "GR", "A", "B"], ["N3"], "two"),
     "twosingle": (["N1", "N2"], ["N1", "N2", "N3", "GR", "A", "B"], ["N3"], "single"),
+    "rules-selfgenesis": (["N1"], ["N1", "N2", "GR", "A", "B"], ["N2"], "rules"),
 }
 
 
@@ -73,8 +74,8 @@ def mc_constants(shape, maxv, inflight, maxcraft, toggle, trunc=2, jump="{}", ma
 
 def cfg_of(shape, trunc, unit):
     nodes, wallets, sealers, profile = SHAPES[shape]
-    return {"nodes": nodes, "wallets": wallets, "gr": "GR", "supply": 10, "truncDepth": trunc, "unit": unit,
-            "trx": TRX[profile]}
+    return {"nodes": nodes, "wallets": wallets, "gr": "N1" if shape == "rules-selfgenesis" else "GR", "supply": 10,
+            "truncDepth": trunc, "unit": unit, "trx": TRX[profile]}
 
 
 # ------------------------------------------------------------------------------------------
@@ -346,8 +347,10 @@ def fam_rules(rng):
            {"op": "craft", "s": "N2", "t": "t9", "l": 2, "r": 2, "w": 2, "id": 9}, D("N1", 9),
            {"op": "craft", "s": "N1", "t": "t8", "l": 2, "r": 2, "w": 2, "id": 10}, D("N1", 10),
            {"op": "craft", "s": "N2", "t": "t5", "l": 3, "r": 3, "w": 3, "id": 11}, D("N1", 11), D("N1", 7),
-           {"op": "tick", "n": "N1", "times": 3}, {"op": "genesis", "n": "N1", "id": 12}]
+           {"op": "tick", "n": "N1", "times": 3}]
     out.append(("rules", 2, ops))
+    # genesis naming its own issuer as receiver is refused and leaves the node unloaded
+    out.append(("rules-selfgenesis", 2, [G(), P("N1", "t1", 2), P("N1", "t5", 3)]))
     return out
 
 
@@ -457,7 +460,7 @@ def parse_validation(out, rc, nevents):
     if viol:
         ps = re.findall(r"/\\ pos = (\d+)", out)
         if ps:
-            pos = int(ps[-1])
+            pos = max(1, int(ps[-1]) - 1)
     st = tlc_stats(out)
     accepted = st is not None and st["distinct"] == nevents + 1 and not viol and not fail
     if not viol and not fail and "Postcondition" in out and "violated" in out:
@@ -518,7 +521,7 @@ def package(prop, raw, rng, heavy=True):
 def group(behaviours, nchunks):
     by = {}
     for b in behaviours:
-        k = (tuple(b["cfg"]["nodes"]), tuple(b["cfg"]["wallets"]), b["cfg"]["truncDepth"])
+        k = (tuple(b["cfg"]["nodes"]), tuple(b["cfg"]["wallets"]), b["cfg"]["truncDepth"], b["cfg"]["gr"])
         by.setdefault(k, []).append(b)
     groups = {}
     total = len(behaviours)
@@ -615,7 +618,7 @@ def check(prop, tier):
     rng = random.Random(sd * 7919 + hash(prop) % 1000)
     spec = dict(PROPS[prop])
     wd = rundir("%s-%s" % (prop, tier))
-    drivebin = build_harness()
+    drivebin = build_harness(into=wd)
 
     # --- MC (design level) ---
     mcq, mct = MC_CONFIGS[spec["mc"]]
@@ -719,7 +722,7 @@ def replay(prop, path):
     v = json.load(open(path))
     b = v["behaviour"]
     wd = rundir("%s-replay" % prop)
-    drivebin = build_harness()
+    drivebin = build_harness(into=wd)
     spec = PROPS[prop]
     files = drive(wd, drivebin, {"r": [b]})
     rs = run_validation(wd, {"r": [b]}, files, dict(strict=spec["strict"], inv=spec["inv"], prop=spec["prop"]), 300)
